@@ -930,11 +930,9 @@ func onlyErrorReturns(b *ssa.BasicBlock) bool {
 		st = st[:len(st)-1]
 		if len(x.Instrs) > 0 {
 			if ret, ok := x.Instrs[len(x.Instrs)-1].(*ssa.Return); ok {
-				last := core.Strip(ret.Results[len(ret.Results)-1])
-				if core.IsNilConst(last) {
-					return false
-				}
-				if !definitelyNonNil(last) {
+				// an error return: a fresh error, or a value a dominating branch established to be non-nil
+				// (`if err := round.helper(msg); err != nil { return false, err }`)
+				if core.MayReturnNil(ret, len(ret.Results)-1) {
 					return false
 				}
 			}
